@@ -237,19 +237,17 @@ func (v *Version) Compare(other *Version) int {
 	return compareSegmentArrays(v.segments, other.segments)
 }
 
-// splitNumericAndPrerelease splits version into numeric and prerelease parts
+// splitNumericAndPrerelease splits version into numeric and prerelease parts: the numeric part
+// ends at the first string segment (Gem::Version#_split_segments), numbers behind it belong to
+// the prerelease part
 func (v *Version) splitNumericAndPrerelease() ([]segment, []segment) {
-	var numeric, prerelease []segment
-
-	for _, seg := range v.segments {
-		if seg.isNumeric {
-			numeric = append(numeric, seg)
-		} else {
-			prerelease = append(prerelease, seg)
+	for i, seg := range v.segments {
+		if !seg.isNumeric {
+			return v.segments[:i:i], v.segments[i:]
 		}
 	}
 
-	return numeric, prerelease
+	return v.segments, nil
 }
 
 // compareSegmentArrays compares two arrays of segments
